@@ -75,3 +75,4 @@ func Twin() bool                          { return false }
 func SetFile(path string, content string) {}
 
 func WitnessList(name string, parts ...string) {}
+func VfsOnly(prefix string) {}
